@@ -230,6 +230,8 @@ fn build(env: &Env, x: &Sx) -> Observable<'static, V> {
     "never" => observables::never(),
     "error" => observables::error(mk_err(l[1].int() as u32)),
     "repeat" => observables::repeat(V::from_sx(&l[1])),
+    // from_iter over an ENDLESS iterator: by definition the same stream as repeat(v) - it must stop pulling when the subscription ends
+    "from_iter_repeat" => observables::from_iter(std::iter::repeat(V::from_sx(&l[1]))),
     "defer" => {
       let env = env.clone();
       let inner = l[1].clone();
